@@ -46,6 +46,7 @@ class signal {
 
         ~state() {
             _cur_val = nullptr;
+            COCLS_VERIF_POINT(sig_state_dtor);
             notify_awaiters();
         }
 
@@ -96,6 +97,7 @@ public:
         suspend_point<void> operator()(Args && ... args) const {
             _state->_value_storage.emplace(std::forward<Args>(args)...);
             _state->_cur_val = &(*_state->_value_storage);
+            COCLS_VERIF_POINT(sig_emit_pre);
             return _state->notify_awaiters();
         }
 
@@ -114,6 +116,7 @@ public:
         suspend_point<void> operator()(rvalue_param val) const {
             _state->_value_storage.emplace(std::move(val));
             _state->_cur_val = &(*_state->_value_storage);
+            COCLS_VERIF_POINT(sig_emit_pre);
             return _state->notify_awaiters();
         }
 
@@ -135,6 +138,7 @@ public:
          */
         suspend_point<void> operator()(lvalue_param val) const {
             _state->_cur_val = &val;
+            COCLS_VERIF_POINT(sig_emit_pre);
             return _state->notify_awaiters();
         }
 
@@ -193,6 +197,7 @@ public:
             auto s = _wk_state.lock();
             if (s) {
                 set_handle(h);
+                COCLS_VERIF_POINT(sig_suspend_locked);
                 this->subscribe(s->_chain);
                 return true;
             }  else {
@@ -202,6 +207,7 @@ public:
 
         ///required for co_await
         reference await_resume() {
+            COCLS_VERIF_POINT(sig_resume);
             auto s = _wk_state.lock();
             if (s) {
                 auto v = s->_cur_val;
